@@ -7,7 +7,7 @@ from ..nf import Rat, C
 from ..source import Unsupported, AnchorError
 from ..xlate import Interp, Frame, Obj, ListV, DictV, Raised, RankOrder
 from .common import same, show, coeff_vector
-from .rxnfix import species as opaque_species, set_public, get_public, make_reaction
+from .rxnfix import species as opaque_species, set_public, get_public, make_reaction, state_sum
 
 Z = '\x00'
 
@@ -37,6 +37,32 @@ def flat(v):
             out += flat(x)
         return out
     return [v]
+
+
+def named_ids(I, entries):
+    """the set of ids a list of id entries names; an entry is one id or an inclusive range '<head>_<m> to <head>_<n>'
+    (OpenMKM's range notation); None when an entry is neither"""
+    if entries is None:
+        return set()
+    if not isinstance(entries, ListV):
+        return None
+    out = set()
+    for e_ in entries.items:
+        t_ = I.plain(e_)
+        if not isinstance(t_, str):
+            return None
+        ends = [x.strip() for x in t_.strip().strip('"').split(' to ')]
+        if len(ends) == 1:
+            out.add(ends[0])
+        elif len(ends) == 2 and '_' in ends[0] and '_' in ends[1]:
+            (h0, f0), (h1, f1) = ends[0].rsplit('_', 1), ends[1].rsplit('_', 1)
+            if h0 != h1 or not (f0.isdigit() and f1.isdigit()) or len(f0) != len(f1):
+                return None
+            for k_ in range(int(f0), int(f1) + 1):
+                out.add('%s_%0*d' % (h0, len(f0), k_))
+        else:
+            return None
+    return out
 
 
 def species_emitters(run, repo):
@@ -279,14 +305,25 @@ def reaction_emitters(run, repo):
                     out.append(str(s_.value).strip(Z))
         return out
 
-    for adsorption, user_ea, pcoef, motz in ((False, False, C(2), False), (True, False, C(2), False),
-                                             (False, True, C(2), False), (False, False, C(Fr(3, 2)), False),
-                                             (True, False, C(2), True)):
+    bci = repo.cls('pmutt.omkm.reaction.BEP')
+    # (adsorption, activation energy given by the user, product coefficient, Motz-Wise, transition state, method for
+    # the barrier of an adsorption step, unit system)
+    U_KJ = {'act_energy': 'kJ/mol', 'quantity': 'mol', 'length': 'm'}
+    U_MOLEC = {'act_energy': 'J/mol', 'quantity': 'molec', 'length': 'm'}
+    U_CM = {'act_energy': 'kcal/mol', 'quantity': 'molecule', 'length': 'cm'}
+    variants = ((False, False, C(2), False, None, None, U_KJ), (True, False, C(2), False, None, None, U_KJ),
+                (False, True, C(2), False, None, None, U_KJ), (False, False, C(Fr(3, 2)), False, None, None, U_KJ),
+                (True, False, C(2), True, None, None, U_KJ),
+                (False, False, C(2), False, None, None, U_MOLEC), (False, False, C(2), False, None, None, U_CM),
+                (False, False, C(2), False, 'species', None, U_MOLEC), (False, False, C(2), False, 'bep', None, U_KJ),
+                (True, False, C(2), False, 'species', None, U_CM), (True, False, C(2), False, 'bep', 'get_G_act', U_KJ),
+                (True, False, C(2), False, None, 'get_G_act', U_MOLEC))
+    for adsorption, user_ea, pcoef, motz, ts_kind, ads_method, usys in variants:
         I = Interp(repo)
         D = I.D
         fr = Frame(I, repo.module('pmutt'), {}, None, None)
-        u = fr.apply(repo.cls('pmutt.omkm.units.Units'), [], {'act_energy': 'kJ/mol', 'quantity': 'mol',
-                                                              'length': 'm'}, None)
+        u = fr.apply(repo.cls('pmutt.omkm.units.Units'), [], dict(usys), None)
+        e_unit = usys['act_energy']
         surf = Obj('surf', repo.cls('pmutt.omkm.phase.InteractingInterface'), attrs={'site_density': D.sym('sden')})
         g = opaque_species(I, 'g1', 'gas')
         a = opaque_species(I, 'a1', surf)
@@ -298,36 +335,94 @@ def reaction_emitters(run, repo):
         # a surface step has two surface reactants: its pre-exponential factor then carries a power of the site
         # density and depends on the quantity/length units requested
         r0 = g if adsorption else a3
+        tskw = {}
+        tsp = None
+        if ts_kind == 'species':
+            # an explicit transition state species
+            tsp = opaque_species(I, 'ts1', surf)
+            tsp.attrs['name'] = text(I, 'ts1', 6)
+        elif ts_kind == 'bep':
+            # a Bronsted-Evans-Polanyi relation in the place of the transition state
+            tsp = I.construct(bci, [], {'name': text(I, 'bepn', 4), 'slope': D.sym('bslope'),
+                                        'intercept': D.sym('bicpt'), 'direction': 'cleavage',
+                                        'descriptor': 'delta_H'}, name='bep')
+            if not isinstance(tsp, Obj):
+                raise Unsupported('omkm.BEP(...) gives %s for the model relation' % show(tsp, 80))
+        if tsp is not None:
+            tskw = {'ts': [tsp], 'tstoich': [C(1)]}
         rxn = make_reaction(I, repo, ci, [r0, a], [C(1), C(1)], [b], [pcoef], id=rid, is_adsorption=adsorption,
-                            A=None, beta=D.sym('beta'), Ea=D.sym('Ea_user') if user_ea else None, direction=None,
-                            sticking_coeff=D.sym('stick'), use_motz_wise=motz)
+                            A=None, beta=D.sym('beta'), Ea=D.sym('Ea_user') if user_ea else None,
+                            direction='cleavage' if ts_kind == 'bep' else None,
+                            sticking_coeff=D.sym('stick'), use_motz_wise=motz, **tskw)
         T, P = D.sym('T'), D.sym('P')
         label = 'adsorption=%s user Ea=%s' % (adsorption, user_ea) + ('' if pcoef.eq(C(2)) else ' product coefficient 3/2') \
-            + (' Motz-Wise' if motz else '')
+            + (' Motz-Wise' if motz else '') + ('' if ts_kind is None else ' transition state=' + ts_kind) \
+            + ('' if ads_method is None else ' ads_act_method=' + ads_method) \
+            + ('' if usys is U_KJ else ' units=%s,%s,%s' % (usys['quantity'], usys['length'], e_unit))
         spnames = [r0.attrs['name'], a.attrs['name'], b.attrs['name']]
+        # ---- what the model says, written here from the species (nothing of the reaction class is consulted):
+        # the barrier is max(0, state change to the transition state, state change to the products) of the Gibbs
+        # energy (enthalpy for an adsorption step unless the Gibbs energy is asked for), times R T in the energy unit
+        kwq = {'T': T, 'P': P}
+        e_fac = I.unit(e_unit) / I.unit('kcal/mol')
+        Rk = D.sym('kb') * D.sym('Na') * I.unit(e_unit)
+        clamp_args = None
         if user_ea:
-            wantE = D.sym('Ea_user') * D.sym('U<kJ>') / D.sym('U<kcal>')
-        elif adsorption:
-            wantE = I.call_method(rxn, 'get_H_act', [], {'units': 'kJ/mol', 'T': T, 'P': P})
+            wantE = D.sym('Ea_user') * e_fac
         else:
-            wantE = I.call_method(rxn, 'get_G_act', [], {'units': 'kJ/mol', 'T': T, 'P': P})
-        wantA = D.sym('stick') if adsorption else I.call_method(rxn, 'get_A', [], {'T': T, 'P': P,
-                                                                                  'include_entropy': False,
-                                                                                  'units': 'mol/m2'})
+            q_ = 'get_HoRT' if adsorption and ads_method != 'get_G_act' else 'get_GoRT'
+            ini = state_sum(I, [r0, a], [C(1), C(1)], q_, kwq)
+            clamp_args = [C(0), state_sum(I, [b], [pcoef], q_, kwq) - ini]
+            if ts_kind == 'species':
+                clamp_args.append(state_sum(I, [tsp], [C(1)], q_, kwq) - ini)
+            elif ts_kind == 'bep':
+                # enthalpy of the relation's state: reactants + (slope * reaction enthalpy + intercept[kcal/mol]);
+                # its entropy is the reactants' entropy
+                h_ini = state_sum(I, [r0, a], [C(1), C(1)], 'get_HoRT', kwq)
+                dh = state_sum(I, [b], [pcoef], 'get_HoRT', kwq) - h_ini
+                barrier = D.sym('bslope') * dh + D.sym('bicpt') / (D.sym('kb') * D.sym('Na') * I.unit('kcal/mol') * T)
+                if q_ == 'get_HoRT':
+                    clamp_args.append(barrier)
+                else:
+                    clamp_args.append(h_ini + barrier - state_sum(I, [r0, a], [C(1), C(1)], 'get_SoR', kwq) - ini)
+            wantE = None
+        # the pre-exponential factor of a step without entropy term: kB/h over (site densities of the surface
+        # reactants, summed, mol/cm2 -> quantity/length^2) to the power (number of surface reactants - 1)
+        if adsorption:
+            wantA = D.sym('stick')
+        else:
+            conv = I.unit(usys['quantity']) / I.unit('mol') / (I.unit(usys['length'] + '2') / I.unit('cm2'))
+            wantA = D.sym('kb') / D.sym('h') / (D.sym('sden') * 2 * conv)
+
+        def barrier_ok(val):
+            if not isinstance(val, Rat):
+                return False
+            if clamp_args is None:
+                return val.eq(wantE)
+            at = [x_ for x_ in val.atoms() if x_ in I.extrema and x_.startswith('MAX{')]
+            if len(at) != 1 or not val.eq(Rat.atom(at[0]) * Rk * T):
+                return False
+            args_ = I.extrema[at[0]]
+            return all(any(same(x_, w_) for x_ in args_) for w_ in clamp_args) and \
+                all(any(same(x_, w_) for w_ in clamp_args) for x_ in args_)
+        e_text = show(wantE, 100) if clamp_args is None else 'max(%s) * R T [%s]' % (
+            ', '.join(show(x_, 70) for x_ in clamp_args), e_unit)
+        call_kw = {'T': T, 'P': P, 'units': u}
+        if ads_method is not None:
+            call_kw['ads_act_method'] = ads_method
         owner, fn = repo.find_method(ci, 'to_cti')
         run.fn(owner.qual + '.to_cti', owner.qual + '.to_omkm_yaml')
-        out = I.call_method(rxn, 'to_cti', [], {'T': T, 'P': P, 'units': u})
+        out = I.call_method(rxn, 'to_cti', [], dict(call_kw))
         if isinstance(out, Raised):
             run.fail('DATAFLOW.reaction', 'SurfaceReaction.to_cti', label, 'raises %s' % out.exc, owner.module, fn)
         else:
             sg = I.seg(out)
             nums = num_fields(I, out)
             texts = [f.value for f in sg.fields() if f.cls != 'num']
-            ok = len(nums) == 3 and nums[0].eq(wantA) and nums[1].eq(D.sym('beta')) and isinstance(wantE, Rat) and \
-                nums[2].eq(wantE)
+            ok = len(nums) == 3 and nums[0].eq(wantA) and nums[1].eq(D.sym('beta')) and barrier_ok(nums[2])
             run.check(ok, 'DATAFLOW.reaction', 'SurfaceReaction.to_cti', label + ' rate parameters',
                       'rate parameters written: %s; the model gives A=%s beta=beta Ea=%s in the requested units'
-                      % (show(ListV(nums), 200), show(wantA, 80), show(wantE, 100)), owner.module, fn,
+                      % (show(ListV(nums), 300), show(wantA, 80), e_text), owner.module, fn,
                       sample='SurfaceReaction.to_cti [%s]: [A, beta, Ea] from the model' % label)
             run.check(texts == [r0.attrs['name'], a.attrs['name'], b.attrs['name'], rid], 'DATAFLOW.reaction',
                       'SurfaceReaction.to_cti', label + ' equation and id',
@@ -337,7 +432,7 @@ def reaction_emitters(run, repo):
                       'species of the mechanism' % (show(sg, 120), glued(sg, spnames)), owner.module, fn)
         owner, fn = repo.find_method(ci, 'to_omkm_yaml')
         g.attrs['phase'] = 'gas'
-        d = I.call_method(rxn, 'to_omkm_yaml', [], {'T': T, 'P': P, 'units': u})
+        d = I.call_method(rxn, 'to_omkm_yaml', [], dict(call_kw))
         if not isinstance(d, DictV):
             run.fail('DATAFLOW.reaction', 'SurfaceReaction.to_omkm_yaml', label, 'gives %s' % show(d), owner.module, fn)
             continue
@@ -349,11 +444,11 @@ def reaction_emitters(run, repo):
             ea_l = ''.join(s.text for s in I.seg(gotE).segs if s.kind == 'lit') if isinstance(gotE, (str, SegStr)) \
                 else ''
             ok = isinstance(gotA, Rat) and gotA.eq(wantA) and isinstance(gotb, Rat) and gotb.eq(D.sym('beta')) and \
-                len(ea_n) == 1 and isinstance(wantE, Rat) and ea_n[0].eq(wantE) and 'kJ/mol' in ea_l
+                len(ea_n) == 1 and barrier_ok(ea_n[0]) and ea_l.strip().strip('"').strip() == e_unit
         run.check(ok, 'DATAFLOW.reaction', 'SurfaceReaction.to_omkm_yaml', label + ' rate parameters',
-                  'rate block is %s; the model gives A=%s, b=beta, Ea=%s kJ/mol' % (show(rc.d if isinstance(rc, DictV)
-                                                                                      else rc, 200),
-                                                                                 show(wantA, 80), show(wantE, 100)),
+                  'rate block is %s; the model gives A=%s, b=beta, Ea=%s %s' % (show(rc.d if isinstance(rc, DictV)
+                                                                                  else rc, 300),
+                                                                             show(wantA, 80), e_text, e_unit),
                   owner.module, fn)
         run.check(I.plain(d.d.get('id')) == rid, 'DATAFLOW.reaction', 'SurfaceReaction.to_omkm_yaml', label + ' id',
                   'id is %s' % show(d.d.get('id')), owner.module, fn)
@@ -476,6 +571,17 @@ def other_emitters(run, repo):
                   'cleavage reactions r_0001, r_0002 and the synthesis reaction r_0005 each in its own list'
                   % show(sg, 300), owner.module, fn,
                   sample='omkm.BEP.to_cti: id, slope, intercept[kJ/mol], direction, cleavage/synthesis members')
+    # the YAML form of the same relation: each list of member reactions under its own key, naming exactly its members
+    owner, fn = repo.find_method(bci, 'to_omkm_yaml')
+    d2 = I2.call_method(bep2, 'to_omkm_yaml', [], {'units': u2})
+    got2 = {k_: named_ids(I2, d2.d.get(k_)) for k_ in ('cleavage-reactions', 'synthesis-reactions')} \
+        if isinstance(d2, DictV) else None
+    want2 = {'cleavage-reactions': {'r_0001', 'r_0002'}, 'synthesis-reactions': {'r_0005'}}
+    run.check(got2 == want2, 'DATAFLOW.bep', 'omkm.BEP.to_omkm_yaml', 'members of both directions',
+              'a BEP relation with the cleavage reactions r_0001, r_0002 and the synthesis reaction r_0005 must name '
+              'exactly these under cleavage-reactions / synthesis-reactions; the entry names %s'
+              % (got2 if got2 is not None else show(d2, 120)), owner.module, fn,
+              sample='omkm.BEP.to_omkm_yaml: cleavage-reactions {r_0001, r_0002}, synthesis-reactions {r_0005}')
     # membership is established by the reactions: a SurfaceReaction whose transition state is a BEP relation registers
     # itself with it under its own direction, once, and remembers the relation
     I3 = Interp(repo)
